@@ -509,11 +509,11 @@ def cases(ctx):
         if ctx.mine(i):
             yield "history", {"hseed": base + i, "window": True, "case_compare": False}
         i += 1
-    for rep in range(1200 if quick else 8000):
+    for rep in range(1200 if quick else 40000):
         if ctx.mine(i):
             yield "history", {"hseed": base + i}
         i += 1
-    for rep in range(48 if quick else 300):
+    for rep in range(48 if quick else 1000):
         if ctx.mine(i):
             yield "runloop", {"hseed": base + i}
         i += 1
